@@ -89,7 +89,10 @@ type c12In struct {
 	// nested service: while this request is held at its gate, the requests Inner (each possibly gated in turn) are
 	// served completely, one after the other, by the same site. Gate: "op" = at the script's op "gate" (inside the
 	// innermost handler); "hdr" = in the response path, when the header commit (WriteHeader, or the first Write/Flush)
-	// arrives on the connection side of every directive; "body" = there, at the first body Write
+	// arrives on the connection side of every directive; "body" = there, at the first body Write; "post" = there, at
+	// the first write (header commit, body bytes or flush) that arrives AFTER the innermost handler has returned or
+	// panicked: the writes the directives make on the way out - the final flush of the compressed stream (last
+	// deflate block and gzip trailer), the page templates buffered, an error page
 	Gate  string  `json:"gate,omitempty"`
 	Inner []c12In `json:"inner,omitempty"`
 }
@@ -122,6 +125,9 @@ func (p c12Probe) ServeHTTP(w http.ResponseWriter, r *http.Request) (int, error)
 	c12Scripts.RUnlock()
 	if !ok {
 		return p.next.ServeHTTP(w, r)
+	}
+	if gid := r.Header.Get("X-C12-Gate"); gid != "" {
+		defer c12HandlerDone(gid) // also when the script panics
 	}
 	for _, o := range sc.script {
 		switch o.K {
@@ -187,6 +193,18 @@ type c12GateSpec struct {
 	kind  string
 	run   func()
 	fired bool
+	// the innermost (scripted) handler of the request has returned or panicked: what is written from now on
+	// is written by the directives on the way out (the final flush of a compressed stream, a buffered page)
+	handlerDone bool
+}
+
+// c12HandlerDone marks the gate's request as being on its way out of the directive chain
+func c12HandlerDone(id string) {
+	c12Gates.Lock()
+	if g := c12Gates.m[id]; g != nil {
+		g.handlerDone = true
+	}
+	c12Gates.Unlock()
 }
 
 var c12Gates struct {
@@ -199,7 +217,7 @@ func c12FireGate(id, at string) {
 	c12Gates.Lock()
 	g := c12Gates.m[id]
 	var run func()
-	if g != nil && g.kind == at && !g.fired {
+	if g != nil && g.kind == at && !g.fired && (at != "post" || g.handlerDone) {
 		g.fired = true
 		run = g.run
 	}
@@ -227,15 +245,18 @@ type c12GateW struct {
 
 func (w *c12GateW) WriteHeader(code int) {
 	c12FireGate(w.id, "hdr")
+	c12FireGate(w.id, "post")
 	w.ResponseWriterWrapper.WriteHeader(code)
 }
 func (w *c12GateW) Write(b []byte) (int, error) {
 	c12FireGate(w.id, "hdr")
 	c12FireGate(w.id, "body")
+	c12FireGate(w.id, "post")
 	return w.ResponseWriterWrapper.Write(b)
 }
 func (w *c12GateW) Flush() {
 	c12FireGate(w.id, "hdr")
+	c12FireGate(w.id, "post")
 	w.ResponseWriterWrapper.Flush()
 }
 
@@ -1791,7 +1812,7 @@ func c12NestCase(r *Rand) *c12In {
 		return q
 	}
 	gateOf := func(q *c12In) {
-		q.Gate = r.Pick([]string{"hdr", "hdr", "body", "op"})
+		q.Gate = r.Pick([]string{"hdr", "hdr", "body", "op", "post", "post"})
 		if q.Gate == "op" {
 			k := r.Intn(len(q.Script) + 1)
 			sc := append([]c12Op{}, q.Script[:k]...)
@@ -1934,7 +1955,50 @@ func c12Gen(r *Rand, tier string) []interface{} {
 	for i := 0; i < nSeq; i++ {
 		out = append(out, c12NestCase(rn))
 	}
+	// nests of compressed responses: every request of the nest asks for gzip on a site that compresses, the outer one
+	// mostly held at its first write after the handler returned (the final flush of its compressed stream)
+	rg := NewRand(rn.U64())
+	for i := 0; i < nSeq/3; i++ {
+		out = append(out, c12NestGzipCase(rg))
+	}
 	return out
+}
+
+// c12NestGzipCase: a nest on a gzip site in which every request accepts gzip and produces a body (a few bytes up to
+// several hundred KiB); gates mostly "post".
+func c12NestGzipCase(r *Rand) *c12In {
+	a := c12NestCase(r)
+	a.Cfg.Gzip = true
+	if r.Chance(60) {
+		a.Cfg.Templates = false
+	}
+	var fix func(q *c12In, tag string)
+	fix = func(q *c12In, tag string) {
+		q.AE = true
+		if r.Chance(75) {
+			body := c12Op{K: "w", D: "<p>compressed page of " + tag + " " + r.Pick([]string{"0123456789", "abcdefghijklmnopqrstuvwxyz", "x"}) + "</p>"}
+			if r.Chance(40) {
+				body.R = []int{40, 700, 9000}[r.Intn(3)]
+			}
+			q.Script = []c12Op{{K: "set", A: "Content-Type", B: "text/html; charset=utf-8"}, body}
+			if r.Chance(30) {
+				q.Script = append(q.Script, c12Op{K: "w", D: " tail of " + tag})
+			}
+			q.Ret, q.Err = 0, false
+			q.Path = r.Pick([]string{"/x.html", "/y.html", "/dir/y.html"})
+			if q.Gate == "op" {
+				q.Gate = "post"
+			}
+		}
+		if len(q.Inner) > 0 && q.Gate != "op" && r.Chance(70) {
+			q.Gate = "post"
+		}
+		for k := range q.Inner {
+			fix(&q.Inner[k], fmt.Sprintf("%s.%d", tag, k))
+		}
+	}
+	fix(a, "client")
+	return a
 }
 
 func c12Cleanup() {
@@ -1952,7 +2016,7 @@ func init() {
 	_ = sort.Strings
 	register(&Property{
 		ID: "C12", Imports: "V.Lib V.C12_Model", Judge: "judge", Shard: 400,
-		Rule: "every case = one real HTTP/1.1 round trip (plus a follow-up request on the same connection that goes through templates' buffer pool and gzip's writer pool, and for panicking handlers a concurrent in-flight request) against an in-process casket site made of a subset of request_id/limits/log/rewrite/gzip/header/errors(8 variants)/redir/status/mime/internal/templates around a scripted innermost handler, or a sequence of 3-6 such requests (panicking ones included) served alone and then pipelined on one to three concurrent connections, or a NEST: a request held at a gate - the op `gate` of its script (inside the innermost handler), or the test-only outermost directive c12gate at its header commit / first body write on the connection side of every directive - while one or two other requests of the site (one of them possibly held in turn) are served completely, under GOMAXPROCS(1) with the collector off so that the sync.Pools hand an object put back to the very next Get; every response of the sequence / nest is compared, body bytes included, with the same request served alone; non-trivial = at least two response-relevant wrappers are active for the request (sequences: a panicking and a normal request); distinct = distinct case term",
+		Rule: "every case = one real HTTP/1.1 round trip (plus a follow-up request on the same connection that goes through templates' buffer pool and gzip's writer pool, and for panicking handlers a concurrent in-flight request) against an in-process casket site made of a subset of request_id/limits/log/rewrite/gzip/header/errors(8 variants)/redir/status/mime/internal/templates around a scripted innermost handler, or a sequence of 3-6 such requests (panicking ones included) served alone and then pipelined on one to three concurrent connections, or a NEST: a request held at a gate - the op `gate` of its script (inside the innermost handler), or the test-only outermost directive c12gate at its header commit / first body write / first write after the innermost handler returned (the directives' writes on the way out: final flush of the compressed stream incl. gzip trailer, buffered page; also nests in which every request is compressed) on the connection side of every directive - while one or two other requests of the site (one of them possibly held in turn) are served completely, under GOMAXPROCS(1) with the collector off so that the sync.Pools hand an object put back to the very next Get; every response of the sequence / nest is compared, body bytes included, with the same request served alone; non-trivial = at least two response-relevant wrappers are active for the request (sequences: a panicking and a normal request); distinct = distinct case term",
 		Gen: c12Gen,
 		Decode: func(raw json.RawMessage) (interface{}, error) {
 			in := &c12In{}
